@@ -222,7 +222,9 @@ def replace(code, pattern, goal):
     """used by other refactorings"""
     finder = similarfinder.RawSimilarFinder(code)
     matches = list(finder.get_matches(pattern))
-    ast = patchedast.get_patched_ast(code)
+    # The matches refer to nodes of the finder's tree; the replacement has
+    # to walk the same tree to recognise them.
+    ast = finder.ast
     lines = codeanalyze.SourceLinesAdapter(code)
     template = similarfinder.CodeTemplate(goal)
     computer = _ChangeComputer(code, ast, lines, template, matches)
